@@ -2,6 +2,7 @@ import Ekit.Props.C04
 import Ekit.Props.C04Rev
 import Ekit.Props.C04Ring
 import Ekit.Props.C04LL
+import Ekit.Props.C04AL
 open Ekit.Lists
 #print axioms c04_calCapacity_matches_source
 #print axioms c04_arrayList_step_refines
@@ -36,3 +37,10 @@ open Ekit.Lists
 #print axioms Ekit.MiniGo.LL.Refine.c04_ll_run_refines
 #print axioms Ekit.MiniGo.LL.Refine.step_sim
 #print axioms Ekit.MiniGo.LL.Refine.new_sim
+-- the regenerated ArrayList (Ekit/Props/C04AL.lean): the MiniGo interpreter running the translated list/array_list.go
+#print axioms Ekit.MiniGo.AL.Refine.c04_al_new
+#print axioms Ekit.MiniGo.AL.Refine.c04_al_newOf
+#print axioms Ekit.MiniGo.AL.Refine.c04_al_step_refines
+#print axioms Ekit.MiniGo.AL.Refine.c04_al_run_refines
+#print axioms Ekit.MiniGo.AL.Refine.step_sim
+#print axioms Ekit.MiniGo.AL.Refine.run_sim
